@@ -1,3 +1,4 @@
+import Genshi.Model.ExecLru
 import Genshi.Wire
 import Genshi.Model.Exec
 import Genshi.Model.ExecGraph
@@ -182,6 +183,26 @@ def handle : List Sexp → Option Sexp
       let r := run fuel fuel cfg root fs rootName history
       if r.err == some .unmodelled then pure (.atom "unmodelled") else
       pure (.list [errOut r.err, natsOut r.sentinel, natsOut r.out, .list (r.history.map errOut)])
+  -- `C14 lruhist <cap> <flag> <autoReload> ( files ) ( ( name cls ) … )`: load-and-render calls
+  -- through one loader with `max_cache_size = cap`; per call the error and the output, then the
+  -- sentinel
+  | [.atom "lruhist", cap, flag, ar, .list files, .list history] => do
+      let cap ← cap.toNat?; let flag ← flag.toBool?; let ar ← ar.toBool?
+      let fs ← files.mapM file?
+      let history ← history.mapM fun
+        | .list [n, c] => do let n ← n.toNat?; let c ← cls? c; pure (n, c)
+        | _ => none
+      let fuel := fs.length + 3
+      let step := fun (acc : St × List Sexp × Bool) (nc : Nat × Cls) =>
+        let st := acc.1
+        let r := histStepB cap fuel fuel fs st nc.1 nc.2
+        let out : List Nat := match loadB cap fs st nc.1 nc.2 with
+          | .error _ => []
+          | .ok (st', t) => (genB cap fuel fuel fs true t.cls [nc.1] t { st' with out := [] }).1.out
+        (r.1, acc.2.1 ++ [.list [errOut r.2, natsOut out]], acc.2.2 || r.2 == some .unmodelled)
+      let fin := history.foldl step (st0 flag ar, [], false)
+      if fin.2.2 then pure (.atom "unmodelled") else
+      pure (.list [.list fin.2.1, natsOut fin.1.sentinel])
   | [.atom "reach", t, l, o, ar, root, .list chain] => do
       let cfg ← cfg? t l o ar
       let root ← root? root
